@@ -16,7 +16,10 @@ Keys == {KA, KB, KC}
 VARIABLES store, sw, h
 Init == store = <<>> /\ sw = TRUE /\ h = <<>>
 Rec(op, args) == [op |-> op, view |-> ViewAll(store', sw'), under |-> store', sw |-> sw'] @@ args
-Ops == \/ \E k \in Keys, v \in Values, via \in {"attributes", "feature"} :
+\* a Feature whose attributes arrive as a plain mapping / as stored JSON text that still holds scalars (first step only): loading wraps every scalar
+RawSeeds == { <<<<KB, [scalar |-> V1]>>, <<KA, [list |-> <<V1, V2>>]>>, <<KC, [scalar |-> <<>>]>>>>, <<<<KA, [scalar |-> V2]>>>> }
+Ops == \/ \E raw \in RawSeeds : h = <<>> /\ store' = Load(raw) /\ sw' = sw /\ h' = Append(h, Rec("load", [raw |-> raw]))
+       \/ \E k \in Keys, v \in Values, via \in {"attributes", "feature"} :
             store' = SetItem(store, k, v) /\ sw' = sw /\ h' = Append(h, Rec("set", [k |-> k, v |-> v, via |-> via]))
        \/ \E kvs \in {<<<<KA, [scalar |-> V1]>>, <<KB, [list |-> <<V2, V1>>]>>>>, <<<<KC, [list |-> <<>>]>>>>} :
             store' = UpdateMany(store, kvs) /\ sw' = sw /\ h' = Append(h, Rec("update", [kvs |-> kvs]))
